@@ -35,3 +35,48 @@ def avoid_known(prog, tp):
     it does not mask other defects (the raw construct is kept in a small fixed
     fraction of runs by the caller)."""
     return prog
+
+
+@matcher("legacy_simple_optimizer_iterator_keyfunc")
+def _legacy_simple(case, v):
+    """simple_optimize_dag fuses a successor whose key function yields a list/iterator of
+    keys (reductions, selections); the fused key function then fails inside a task."""
+    opt = case.get("opt") or {}
+    opt2 = case.get("opt2") or {}
+    if "simple" not in (opt.get("kind"), opt2.get("kind")):
+        return False
+    return v.get("exc_type") == "AttributeError" and "has no attribute 'coords'" in v.get("msg", "")
+
+
+def _zero_size_operand_ops(case):
+    from gen import programs as G
+
+    try:
+        sh = G.shadow_of(case["prog"])
+    except Exception:  # noqa: BLE001
+        return set()
+    return {st["op"] for st in case["prog"]["steps"] if any(sh.values[a].size == 0 for a in st["args"])}
+
+
+@matcher("zero_length_dim_zerodivision")
+def _zero_len(case, v):
+    """An operation applied to an array with a zero-length dimension lets a chunk size of 0
+    reach normalize_chunks, which divides by it."""
+    if v.get("exc_type") != "ZeroDivisionError" or "vendor/dask/array/core.py" not in (v.get("where") or ""):
+        return False
+    return v.get("op") in _zero_size_operand_ops(case)
+
+
+@matcher("zero_length_dim_multichunk_misaligned")
+def _zero_len_exec(case, v):
+    """Multi-input operations on zero-size arrays that are chunked differently along a
+    non-empty dimension are not brought to common chunks; tasks then fail on misaligned blocks."""
+    if not v.get("cls", "").startswith("failed_after_execution_started"):
+        return False
+    if v.get("exc_type") not in ("IndexError", "ValueError"):
+        return False
+    ops = _zero_size_operand_ops(case)
+    multi = {"stack", "stack3", "concat", "concat3", "where", "matmul", "tensordot", "vecdot", "broadcast_arrays"}
+    from gen.programs import OPS
+
+    return any(o in multi or (o in OPS and OPS[o].arity >= 2) for o in ops)
